@@ -35,7 +35,7 @@ REQUIRED = {"line.selects_entity_scenarios": {"quick": 8000, "thorough": 500000}
             "setup_teardown.never_skipped": {"quick": 40, "thorough": 2000}}
 REQUIRED_SEEN = {"entity_kind_addressed": ["feature", "rule", "outline", "row", "scenario", "line0", "other_line", "beyond_end"],
                  "argument_list_shape": ["DL", "LD", "LL", "DLD"], "wildcard_listfile_place": ["working_directory", "sub_directory"],
-                 "name_selection_shape": ["pattern_matches_the_empty_name_of_an_untitled_scenario"]}
+                 "name_selection_shape": ["pattern_matches_the_empty_name_of_an_untitled_scenario", "together_with_a_file_location"]}
 EXHAUSTIVE = True
 EXHAUSTIVE_SCOPE = "every line number 0..last+2 of every generated document"
 NSHARDS = {"quick": 16, "thorough": 16}
@@ -359,21 +359,49 @@ def run(spec, mon):
                           lambda: dict(text=text, filename=loc.filename, line=loc.line, as_text=str(loc)))
             # ---- name selection in a real run ------------------------------------------------------------------
             for _ in range(12):
-                names_all = []
                 feats = parse_features([FileLocation(doc.fname)])
-                for s in feats[0].walk_scenarios():
-                    names_all.append(s.name)
+                # the names as WRITTEN in the file (from the document generator, not from the parsed model)
+                names_all = []
+
+                def written(c):
+                    for it in c["items"]:
+                        if it["kind"] == "rule":
+                            written(it)
+                        elif it["kind"] == "scenario":
+                            names_all.append(it["name"])
+                        else:
+                            for ei, ex in enumerate(it["examples"]):
+                                if ex.get("header") is None:
+                                    continue
+                                for ri in range(len(ex["rows"])):
+                                    names_all.append(u"%s -- @%d.%d %s" % (it["name"], ei + 1, ri + 1, ex.get("name", "")))
+                written(doc.abstract)
+                parsed_names = [s.name for s in feats[0].walk_scenarios()]
+                if [n.strip() for n in parsed_names] != [n.strip() for n in names_all]:
+                    # (outline names with placeholders etc.: fall back to what the model says -- C04 / C06 own those texts)
+                    if any(("<" in n) for n in names_all) or len(parsed_names) != len(names_all):
+                        names_all = parsed_names
                 if not names_all:
                     continue
                 pats = []
                 for _k in range(rng.choice([1, 1, 2])):
                     nm = rng.choice(names_all)
                     pats.append(rng.choice([re.escape(nm.split(" ")[0]) + r"\b", r"^S\d", r"\d+ ", r"O\d+.*@1\.1", r"[13579] ", re.escape(nm[:6]), r"@\d\.2", "zzz-nomatch",
+                                            re.escape(nm), re.escape(rng.choice(nm.split(" ") or [nm])) if nm else "zzz", r"Cafe\b", r"Caf.\b", r"^.{12}$",
                                             # patterns that (also) match the EMPTY name of a scenario without title
                                             r"^$", r".*", r"x*", r"^(?!S)", r"^(?!.*\d)"]))
                 if doc.has_unnamed and any(re.search(p_, "") for p_ in pats):
                     mon.seen("name_selection_shape", "pattern_matches_the_empty_name_of_an_untitled_scenario")
                 want = [n for n in names_all if re.search("|".join(pats), n)]
+                loc_line = None
+                if not doc.protected and len(names_all) == len(doc.all_ids) and rng.random() < 0.4:
+                    # a location AND name patterns in one run: a scenario runs when it is addressed by the location and its name
+                    # matches; no hook of any other scenario is called
+                    loc_line = rng.choice(doc.entity_lines)
+                    addressed = set(doc.expected(loc_line)[1])
+                    feats = parse_features([FileLocation(doc.fname, loc_line)])
+                    want = [n for n, sid in zip(names_all, doc.all_ids) if sid in addressed and re.search("|".join(pats), n)]
+                    mon.seen("name_selection_shape", "together_with_a_file_location")
                 entered = []
 
                 def rec(state, context, name, elem, tag):
@@ -386,7 +414,7 @@ def run(spec, mon):
                     continue
                 skipped_ok = all((s.status.name == "skipped") for s in feats[0].walk_scenarios() if s.name not in want)
                 mon.check("name.selects_matching", entered == want and skipped_ok,
-                          lambda: W(patterns=pats, entered=entered, want=want, others_skipped=skipped_ok))
+                          lambda: W(patterns=pats, location_line=loc_line, entered=entered, want=want, others_skipped=skipped_ok))
             if d == 0 and spec["shard"] == 0:
                 mon.sample({"text": doc.text, "entity_lines": {str(k): v[0] for k, v in doc.entities.items()},
                             "example": {"line": doc.entity_lines[-1], "selects": doc.entities[doc.entity_lines[-1]][1]}})
